@@ -255,6 +255,35 @@ class Roots:
                     if len(ex) == 1:
                         some = ("agg", "adt", "std::option::Option::Some", ((0, ex[0][3]),))
                         return self.with_captures(v[4][1]).roots(phi([none, some]), path)
+            if re.search(r"option::Option(::<[^>]*>)?::map_or(_else)?$", cs) and len(v[4]) == 3 and v[4][2][0] == "agg" and v[4][2][1] == "closure":
+                # opt.map_or(d, f) / opt.map_or_else(|| d, f)  ==  match opt { Some(x) => f(x), None => d }
+                cf = self.P.fn(v[4][2][2])
+                ex = [x for x in exit_sites(self.P, cf)] if cf is not None and cf.body is not None else []
+                if len(ex) == 1:
+                    payload = proj(proj(v[4][0], ("v", "Some")), ("f", 0))
+                    rv = subst_params(ex[0][3], {("param", cf.path, 1): payload})
+                    some_r = self.with_captures(v[4][2]).roots(rv, ())
+                    dflt = v[4][1]
+                    if cs.endswith("map_or_else"):
+                        if dflt[0] == "const" and dflt[1] == "fn":
+                            d_r = {"C:%s@%s:bb%d" % (generic_path(dflt[2]), v[1], v[2])}
+                        else:
+                            d_r = self.closure_return_roots(dflt)
+                    else:
+                        d_r = self.roots(dflt)
+                    if d_r is not None:
+                        return {"or(%s;%s)%s" % ("|".join(sorted(some_r)), "|".join(sorted(d_r)), path_str(path))}
+            if re.search(r"result::Result(::<[^>]*>)?::map$", cs) and len(v[4]) == 2:
+                # res.map(f)  ==  match res { Ok(x) => Ok(f(x)), Err(e) => Err(e) }   (the error side is dropped: it propagates)
+                fv = v[4][1]
+                payload = proj(proj(v[4][0], ("v", "Ok")), ("f", 0))
+                if fv[0] == "agg" and fv[1] == "closure":
+                    cf = self.P.fn(fv[2])
+                    ex = [x for x in exit_sites(self.P, cf)] if cf is not None and cf.body is not None else []
+                    if len(ex) == 1:
+                        rv = subst_params(ex[0][3], {("param", cf.path, 1): payload})
+                        okv = ("agg", "adt", "std::result::Result::Ok", ((0, rv),))
+                        return self.with_captures(fv).roots(okv, path)
             if cs.endswith("option::Option::unwrap_or") and len(v[4]) == 2:
                 return {"or(%s;%s)%s" % ("|".join(sorted(self.roots(v[4][0], (("v", "Some"), ("f", 0))))),
                                           "|".join(sorted(self.roots(v[4][1]))), path_str(path))}
@@ -723,7 +752,18 @@ def storage_sites(P, fn, writes=True):
         if m:
             v = P.val_call(fn, fn.body, b)
             item = sorted(R.roots(v[4][0]))
-            out.append((b, m.group(2), item[0] if len(item) == 1 else "|".join(item), v))
+            op = m.group(2)
+            if op == "update" and re.search(r"(item::)?Item::update$", g) and len(v[4]) == 3 and v[4][2][0] == "agg" and v[4][2][1] == "closure":
+                # ITEM.update(storage, |old| -> Result<T, E> { ..; Ok(new) })  ==  let old = ITEM.load(storage)?; ITEM.save(storage, &new)
+                cf = P.fn(v[4][2][2])
+                oks = [x for x in exit_sites(P, cf) if x[2] != "err"] if cf is not None and cf.body is not None else []
+                if len(oks) == 1 and oks[0][3][0] == "agg" and str(oks[0][3][2]).endswith("Result::Ok"):
+                    loadv = ("call", fn.path, b, "cw_storage_plus::Item::load", (v[4][0], v[4][1]))
+                    old = proj(proj(loadv, ("v", "Ok")), ("f", 0))
+                    newv = subst_params(oks[0][3][3][0][1], {("param", cf.path, 1): old})
+                    v = ("call", v[1], v[2], "cw_storage_plus::Item::save", (v[4][0], v[4][1], newv))
+                    op = "save"
+            out.append((b, op, item[0] if len(item) == 1 else "|".join(item), v))
         elif writes and (g.endswith("cw2::set_contract_version")):
             out.append((b, "set_contract_version", "I:cw2::CONTRACT", P.val_call(fn, fn.body, b)))
         elif writes and re.search(r"(cosmwasm_std::\S*Storage>?::(set|remove)$|cosmwasm_storage::)", g):
